@@ -1611,7 +1611,11 @@ impl Melda {
             });
             let mut c_r: std::sync::MutexGuard<'_, HashMap<String, Map<String, Value>>> =
                 c.lock().unwrap();
-            let root = c_r.get(start).expect("root_object_not_found");
+            // The starting object may exist only as a deleted object
+            let root = match c_r.get(start) {
+                Some(root) => root,
+                None => bail!("no_root"),
+            };
             let root = Value::from(root.clone());
             let result = unflatten(&mut c_r, &root)
                 .unwrap()
